@@ -72,7 +72,7 @@ def edits(draw, structure, allow_hydrogens=True):
     nedits = draw(st.integers(1, 3))
     for _ in range(nedits):
         kind = draw(st.sampled_from(["water", "water", "hydrogen", "hydrogen", "junk", "serial", "serial", "columns",
-                                     "truncate"]))
+                                     "truncate", "pad"]))
         if kind == "hydrogen" and not allow_hydrogens:
             kind = "water"          # with keep-protons, input hydrogens are used by design
         labels.append("edit:" + kind)
@@ -176,6 +176,10 @@ def edits(draw, structure, allow_hydrogens=True):
                 if mode in ("tail", "all"):
                     a.tail = draw(st.sampled_from(["", "          FE  ", "      SEGA H  ", "           C1-", "           O2+",
                                                    "      XXXX    ", "           H  "]))
+        elif kind == "pad":
+            # trailing blanks / columns 73-80 of full-width records
+            for a in pdbio.atoms_of(entries):
+                a.tail = (a.tail + " " * 14)[:14] + draw(st.sampled_from(["", "    ", "1ABC  12"]))
         elif kind == "truncate":
             for a in pdbio.atoms_of(entries):
                 a.tail = ""
@@ -337,9 +341,15 @@ def run_shard(ctx):
 # ---- used by C19: the serial column never influences predictions -------------------------------------------------
 
 def serial_stage(ctx, total):
+    from vlib import genconf
+
     @st.composite
     def cases(draw):
-        s = draw(gen.structures(max_res=25))
+        if draw(st.integers(0, 2)) == 0:
+            text, info = draw(genconf.multi_conformation(max_res=12, kinds=("models", "altloc")))
+            s = gen.Structure(pdbio.parse(text), info["labels"])
+        else:
+            s = draw(gen.structures(max_res=25))
         entries = [e.copy() if isinstance(e, Atom) else e for e in s.entries]
         mode = draw(st.sampled_from(["hy36-run", "random", "dup", "desc"]))
         base = draw(st.sampled_from([0, 99990, 100000 + 26 * 36 ** 4 - 20, 87440031 - 3000, 43770000]))
